@@ -404,11 +404,91 @@ def plant_fillomino(rng):
     return {"h": h, "w": w, "p": p}, {f"{y},{x}": size[(y, x)] for y, x in allc(h, w)}, ok
 
 
+def plant_view(rng):
+    """A connected set of number cells; every number = empty cells seen in the four directions; edge-adjacent numbers differ.
+    Clues: a subset of the numbers, the largest one always among them (the domain of the numbers must reach it)."""
+    h, w = shape(rng, 4, 6)
+    M = grow_connected(rng, h, w, rng.choice([0.08, 0.15, 0.3, 0.5]))
+    nums = {}
+    for c in allc(h, w):
+        k = 0
+        if c in M:
+            for dy, dx in N4:
+                q = (c[0] + dy, c[1] + dx)
+                while 0 <= q[0] < h and 0 <= q[1] < w and q not in M:
+                    k += 1
+                    q = (q[0] + dy, q[1] + dx)
+        nums[c] = k
+    ok = all(not (q in M and nums[q] == nums[c]) for c in M for q in ((c[0] + 1, c[1]), (c[0], c[1] + 1)))
+    top = max(M, key=lambda c: nums[c])
+    p = [[(nums[(y, x)] if (y, x) in M and ((y, x) == top or rng.random() < 0.4) else -1) for x in range(w)] for y in range(h)]
+    sol = {}
+    for c in allc(h, w):
+        sol[f"m{c[0]},{c[1]}"] = c in M
+        sol[f"n{c[0]},{c[1]}"] = nums[c]
+    return {"h": h, "w": w, "p": p}, sol, ok
+
+
+def plant_nurikabe(rng):
+    """Sea: connected, no 2x2 pool; every island gets one clue (its size, or '?' = -1)."""
+    h, w = shape(rng, 4, 6)
+    cells = allc(h, w)
+    white = {c for c in cells if rng.random() < 0.3}
+    for _ in range(200):
+        black = set(cells) - white
+        pools = [(y, x) for y in range(h - 1) for x in range(w - 1)
+                 if all(q in black for q in ((y, x), (y + 1, x), (y, x + 1), (y + 1, x + 1)))]
+        if not pools:
+            break
+        y, x = rng.choice(pools)
+        white.add(rng.choice([(y, x), (y + 1, x), (y, x + 1), (y + 1, x + 1)]))
+    black = set(cells) - white
+    if not black or not conn(black) or not white:
+        return None
+    from ..workloads.graphdrv import components_of
+
+    p = [[0] * w for _ in range(h)]
+    for isl in components_of(h, w, white):
+        y, x = rng.choice(sorted(isl))
+        p[y][x] = len(isl) if rng.random() < 0.8 else -1
+    inst = {"h": h, "w": w, "p": p}
+    ok = not any(all(q in black for q in ((y, x), (y + 1, x), (y, x + 1), (y + 1, x + 1))) for y in range(h - 1) for x in range(w - 1))
+    return inst, R.set_sol(h, w, white), ok
+
+
+def plant_norinori(rng):
+    """Dominoes that do not touch each other by an edge; every room is grown around one domino (so it holds exactly two shaded cells)."""
+    h, w = shape(rng, 4, 6)
+    S, doms = set(), []
+    for y, x in rng.sample(allc(h, w), h * w):
+        dy, dx = rng.choice([(0, 1), (1, 0)])
+        a, b = (y, x), (y + dy, x + dx)
+        if not (b[0] < h and b[1] < w) or rng.random() < 0.5:
+            continue
+        if any((c[0] + ey, c[1] + ex) in S for c in (a, b) for ey, ex in N4) or a in S or b in S:
+            continue
+        S |= {a, b}
+        doms.append([a, b])
+    if not doms:
+        return None
+    owner = {c: k for k, d in enumerate(doms) for c in d}
+    while len(owner) < h * w:
+        c = rng.choice(sorted(owner))
+        dy, dx = rng.choice(N4)
+        q = (c[0] + dy, c[1] + dx)
+        if 0 <= q[0] < h and 0 <= q[1] < w and q not in owner:
+            owner[q] = owner[c]
+    rooms = [[list(c) for c in sorted(owner) if owner[c] == k] for k in range(len(doms))]
+    inst = {"h": h, "w": w, "rooms": rooms}
+    return inst, R.set_sol(h, w, S), True
+
+
 PLANTERS = {
     "slitherlink": plant_slitherlink, "masyu": plant_masyu, "geradeweg": plant_geradeweg, "simpleloop": plant_simpleloop,
     "yajilin": plant_yajilin, "castle_wall": plant_castle_wall, "creek": plant_creek, "gokigen": plant_gokigen, "akari": plant_akari,
     "heyawake": plant_heyawake, "aquarium": plant_aquarium, "sudoku": plant_sudoku, "building": plant_building,
     "doppelblock": plant_doppelblock, "compass": plant_compass, "fillomino": plant_fillomino,
+    "view": plant_view, "nurikabe": plant_nurikabe, "norinori": plant_norinori,
 }
 
 
